@@ -415,8 +415,13 @@ func (s *session) continueUntilWait(sprint *sprint, currentRun flows.Run, node f
 			numNewSteps++
 
 			if numNewSteps > s.engine.Options().MaxStepsPerSprint {
-				// we've hit the step limit - usually a sign of a loop
-				failRun(sprint, currentRun, step, fmt.Errorf("reached maximum number of steps per sprint (%d)", s.engine.Options().MaxStepsPerSprint))
+				// we've hit the step limit - usually a sign of a loop.. note that the last step we visited might have been
+				// in a different run so the failure is logged against the last step of the run we're actually failing
+				var lastStep flows.Step
+				if path := currentRun.Path(); len(path) > 0 {
+					lastStep = path[len(path)-1]
+				}
+				failRun(sprint, currentRun, lastStep, fmt.Errorf("reached maximum number of steps per sprint (%d)", s.engine.Options().MaxStepsPerSprint))
 			} else {
 				node = currentRun.Flow().GetNode(destination)
 				if node == nil {
